@@ -33,7 +33,10 @@ Record conn := mkConn {
   c_cid_avail : list Z;          (* _peer_cid_available (sequence numbers) *)
   c_cid_seen : list Z;           (* _peer_cid_sequence_numbers *)
   c_cid_rpt : Z;                 (* _peer_retire_prior_to *)
-  c_retire : list Z              (* _retire_connection_ids *)
+  c_retire : list Z;             (* _retire_connection_ids *)
+  c_gone : Z;                    (* GHOST (not in the code): sum of highest_offset of the streams discarded so far *)
+  c_tls : list Z;                (* tls.Context._receive_buffer: in-order CRYPTO bytes of a not yet complete handshake message *)
+  c_paths : list (Z * list Z)    (* _network_paths[1:]: (source address, remote_challenges) of the non-active paths *)
 }.
 
 Definition recv_at (base : Z) : recv := mkRecv base false [] base None [].
@@ -41,31 +44,37 @@ Definition recv_at (base : Z) : recv := mkRecv base false [] base None [].
 Definition conn_init (client : bool) (msd max_data crypto_base : Z) : conn :=
   mkConn client msd (mkLimit max_data 0 max_data)
          (mkLimit INIT_MAX_STREAMS_BIDI 0 INIT_MAX_STREAMS_BIDI) (mkLimit INIT_MAX_STREAMS_UNI 0 INIT_MAX_STREAMS_UNI)
-         [] [] (recv_at crypto_base) [] [] 0 [] [0] 0 [].
+         [] [] (recv_at crypto_base) [] [] 0 [] [0] 0 [] 0 [] [].
 
 (* setters *)
 Definition set_streams (c : conn) (l : list (Z * strm)) : conn :=
   mkConn (c_client c) (c_msd c) (c_data c) (c_bidi c) (c_uni c) l (c_done c) (c_crypto c) (c_chal c) (c_lchal c)
-         (c_cid_active c) (c_cid_avail c) (c_cid_seen c) (c_cid_rpt c) (c_retire c).
+         (c_cid_active c) (c_cid_avail c) (c_cid_seen c) (c_cid_rpt c) (c_retire c) (c_gone c) (c_tls c) (c_paths c).
 Definition set_limits (c : conn) (d b u : limit) : conn :=
   mkConn (c_client c) (c_msd c) d b u (c_streams c) (c_done c) (c_crypto c) (c_chal c) (c_lchal c)
-         (c_cid_active c) (c_cid_avail c) (c_cid_seen c) (c_cid_rpt c) (c_retire c).
+         (c_cid_active c) (c_cid_avail c) (c_cid_seen c) (c_cid_rpt c) (c_retire c) (c_gone c) (c_tls c) (c_paths c).
 Definition set_data (c : conn) (d : limit) : conn := set_limits c d (c_bidi c) (c_uni c).
 Definition set_done (c : conn) (l : list Z) : conn :=
   mkConn (c_client c) (c_msd c) (c_data c) (c_bidi c) (c_uni c) (c_streams c) l (c_crypto c) (c_chal c) (c_lchal c)
-         (c_cid_active c) (c_cid_avail c) (c_cid_seen c) (c_cid_rpt c) (c_retire c).
+         (c_cid_active c) (c_cid_avail c) (c_cid_seen c) (c_cid_rpt c) (c_retire c) (c_gone c) (c_tls c) (c_paths c).
 Definition set_crypto (c : conn) (r : recv) : conn :=
   mkConn (c_client c) (c_msd c) (c_data c) (c_bidi c) (c_uni c) (c_streams c) (c_done c) r (c_chal c) (c_lchal c)
-         (c_cid_active c) (c_cid_avail c) (c_cid_seen c) (c_cid_rpt c) (c_retire c).
+         (c_cid_active c) (c_cid_avail c) (c_cid_seen c) (c_cid_rpt c) (c_retire c) (c_gone c) (c_tls c) (c_paths c).
 Definition set_chal (c : conn) (l : list Z) : conn :=
   mkConn (c_client c) (c_msd c) (c_data c) (c_bidi c) (c_uni c) (c_streams c) (c_done c) (c_crypto c) l (c_lchal c)
-         (c_cid_active c) (c_cid_avail c) (c_cid_seen c) (c_cid_rpt c) (c_retire c).
+         (c_cid_active c) (c_cid_avail c) (c_cid_seen c) (c_cid_rpt c) (c_retire c) (c_gone c) (c_tls c) (c_paths c).
 Definition set_lchal (c : conn) (l : list Z) : conn :=
   mkConn (c_client c) (c_msd c) (c_data c) (c_bidi c) (c_uni c) (c_streams c) (c_done c) (c_crypto c) (c_chal c) l
-         (c_cid_active c) (c_cid_avail c) (c_cid_seen c) (c_cid_rpt c) (c_retire c).
+         (c_cid_active c) (c_cid_avail c) (c_cid_seen c) (c_cid_rpt c) (c_retire c) (c_gone c) (c_tls c) (c_paths c).
+Definition set_tls (c : conn) (r : recv) (t : list Z) : conn :=
+  mkConn (c_client c) (c_msd c) (c_data c) (c_bidi c) (c_uni c) (c_streams c) (c_done c) r (c_chal c) (c_lchal c)
+         (c_cid_active c) (c_cid_avail c) (c_cid_seen c) (c_cid_rpt c) (c_retire c) (c_gone c) t (c_paths c).
+Definition set_paths (c : conn) (l : list (Z * list Z)) : conn :=
+  mkConn (c_client c) (c_msd c) (c_data c) (c_bidi c) (c_uni c) (c_streams c) (c_done c) (c_crypto c) (c_chal c) (c_lchal c)
+         (c_cid_active c) (c_cid_avail c) (c_cid_seen c) (c_cid_rpt c) (c_retire c) (c_gone c) (c_tls c) l.
 Definition set_cids (c : conn) (active : Z) (avail seen : list Z) (rpt : Z) (retire : list Z) : conn :=
   mkConn (c_client c) (c_msd c) (c_data c) (c_bidi c) (c_uni c) (c_streams c) (c_done c) (c_crypto c) (c_chal c) (c_lchal c)
-         active avail seen rpt retire.
+         active avail seen rpt retire (c_gone c) (c_tls c) (c_paths c).
 
 (* _streams dict *)
 Fixpoint sget (sid : Z) (l : list (Z * strm)) : option strm :=
@@ -136,9 +145,18 @@ Definition handle_stream (c : conn) (ft sid off : Z) (data : list Z) : outcome *
       let '(o, r') := handle_frame (sm_recv s) off data fin in
       match o with
       | RFinalSizeError => (OErr E_FINAL_SIZE_ERROR ft, c)
-      | _ => (OOk o, add_used (set_streams c1 (sset sid (with_recv s r') (c_streams c1))) newly)
+      | _ => (* "if event is not None and not was_finished" in trees that have it (probed): a frame arriving
+                after the receiving part finished is accounted but not reported *)
+             (OOk (if EVENT_SUPPRESSED_WHEN_FINISHED && r_finished (sm_recv s) then RNone else o),
+              add_used (set_streams c1 (sset sid (with_recv s r') (c_streams c1))) newly)
       end
   end.
+
+(* after an accepted reset: "if final_size > stream.receiver.highest_offset: ... = final_size" (only in trees
+   that have this statement; RESET_ADVANCES_HIGHEST is probed from the source by tools/gen/c07_consts.py) *)
+Definition bump_highest (r : recv) (fs : Z) : recv :=
+  if RESET_ADVANCES_HIGHEST && (fs >? r_highest r)
+  then mkRecv fs (r_finished r) (r_buf r) (r_start r) (r_final r) (r_ranges r) else r.
 
 (* _handle_reset_stream_frame *)
 Definition handle_reset_stream (c : conn) (sid final_size : Z) : outcome * conn :=
@@ -154,7 +172,7 @@ Definition handle_reset_stream (c : conn) (sid final_size : Z) : outcome * conn 
       let '(o, r') := handle_reset (sm_recv s) final_size in
       match o with
       | RFinalSizeError => (OErr E_FINAL_SIZE_ERROR ft, c)
-      | _ => (OOk o, add_used (set_streams c1 (sset sid (with_recv s r') (c_streams c1))) newly)
+      | _ => (OOk o, add_used (set_streams c1 (sset sid (with_recv s (bump_highest r' final_size)) (c_streams c1))) newly)
       end
   end.
 
@@ -211,7 +229,9 @@ Definition write (c : conn) : outcome * conn :=
   let gone := map fst (filter (fun p => stream_finished (snd p)) ss) in
   (OWrote (w_resp ++ w_ret ++ wd ++ wb ++ wu ++ ws),
    mkConn (c_client c) (c_msd c) d b u keep (c_done c ++ gone) (c_crypto c) [] (c_lchal c)
-          (c_cid_active c) (c_cid_avail c) (c_cid_seen c) (c_cid_rpt c) []).
+          (c_cid_active c) (c_cid_avail c) (c_cid_seen c) (c_cid_rpt c) []
+          (c_gone c + fold_right (fun p a => r_highest (sm_recv (snd p)) + a) 0 (filter (fun p => stream_finished (snd p)) ss))
+          (c_tls c) (c_paths c)).
 
 (* _on_connection_limit_delivery / _on_max_stream_data_delivery with delivery != ACKED *)
 Definition limit_lost (c : conn) (which : Z) : conn :=
@@ -226,6 +246,22 @@ Definition stream_limit_lost (c : conn) (sid : Z) : conn :=
   end.
 
 (* ---------- CRYPTO ---------- *)
+(* tls.Context.handle_message: _receive_buffer += data; while len >= 4: message_length = 4 + 24-bit length;
+   [if message_length > MAX_HANDSHAKE_MESSAGE_SIZE: AlertDecodeError]; if incomplete: break; else the message is cut
+   off and given to the TLS state machine (outside this model: the harness never completes a message).
+   None = the alert.  TLS_MESSAGE_CAP = None in trees without the check. *)
+Definition byte_at (l : list Z) (i : nat) : Z := (nth i l 0) mod 256.
+Fixpoint tls_parse (fuel : nat) (buf : list Z) : option (list Z) :=
+  match fuel with
+  | O => Some buf
+  | S fuel =>
+      if Zlen buf <? 4 then Some buf else
+      let mlen := 4 + (byte_at buf 1 * 65536 + byte_at buf 2 * 256 + byte_at buf 3) in
+      if (match TLS_MESSAGE_CAP with Some m => mlen >? m | None => false end) then None
+      else if Zlen buf <? mlen then Some buf
+      else tls_parse fuel (zdrop mlen buf)
+  end.
+
 Definition handle_crypto (c : conn) (off : Z) (data : list Z) : outcome * conn :=
   let len := Zlen data in
   if off + len >? UINT_VAR_MAX then (OErr E_FRAME_ENCODING_ERROR FT_CRYPTO, c) else
@@ -234,12 +270,36 @@ Definition handle_crypto (c : conn) (off : Z) (data : list Z) : outcome * conn :
   let '(o, r') := handle_frame (c_crypto c) off data false in
   match o with
   | RFinalSizeError => (OExn, c)      (* FinalSizeError is not caught in _handle_crypto_frame *)
-  | _ => (OOk o, set_crypto c r')     (* delivered bytes go to tls.handle_message (outside this model) *)
+  | RData d _ =>                      (* tls.handle_message(event.data): reassembly of handshake messages *)
+      match tls_parse (length (c_tls c ++ d)) (c_tls c ++ d) with
+      | Some t => (OOk o, set_tls c r' t)
+      | None => (OErr (E_CRYPTO_ERROR + ALERT_DECODE_ERROR) FT_CRYPTO, c)
+      end
+  | _ => (OOk o, set_crypto c r')
   end.
 
 (* ---------- PATH_CHALLENGE / local challenges ---------- *)
 Definition handle_path_challenge (c : conn) (d : Z) : outcome * conn :=
   (OOk RNone, if Zlen (c_chal c) <? MAX_REMOTE_CHALLENGES then set_chal c (c_chal c ++ [d]) else c).
+
+(* a packet of PATH_CHALLENGE frames (nothing else: a probing packet, the path is not promoted) from a source
+   address other than the active path's: _find_network_path + _handle_path_challenge_frame + the append (and, in trees
+   that have it, "if len(self._network_paths) > MAX_NETWORK_PATHS: self._network_paths.pop(1)") in receive_datagram *)
+Definition add_chals (q ds : list Z) : list Z :=
+  fold_left (fun q d => if Zlen q <? MAX_REMOTE_CHALLENGES then q ++ [d] else q) ds q.
+Fixpoint pfind (a : Z) (l : list (Z * list Z)) : option (list Z) :=
+  match l with [] => None | (k, q) :: t => if k =? a then Some q else pfind a t end.
+Fixpoint pset (a : Z) (q : list Z) (l : list (Z * list Z)) : list (Z * list Z) :=
+  match l with [] => [] | (k, q0) :: t => if k =? a then (k, q) :: t else (k, q0) :: pset a q t end.
+Definition handle_path_packet (c : conn) (addr : Z) (ds : list Z) : outcome * conn :=
+  match pfind addr (c_paths c) with
+  | Some q => (OOk RNone, set_paths c (pset addr (add_chals q ds) (c_paths c)))
+  | None =>
+      let l := c_paths c ++ [(addr, add_chals [] ds)] in
+      (OOk RNone, set_paths c (match NETWORK_PATHS_CAP with
+                               | Some m => if 1 + Zlen l >? m then tl l else l
+                               | None => l end))
+  end.
 
 (* _add_local_challenge: append, then drop from the front while longer than the cap *)
 Definition add_local_challenge (c : conn) (d : Z) : conn :=
@@ -257,13 +317,15 @@ Definition handle_new_cid (c : conn) (seq rpt : Z) : outcome * conn :=
   let avail1 := filter (fun q => rpt' <=? q) (c_cid_avail c) in
   let fresh := (rpt' <=? seq) && negb (existsb (Z.eqb seq) (c_cid_seen c)) in
   let avail2 := if fresh then avail1 ++ [seq] else avail1 in
-  let seen2 := if fresh then seq :: c_cid_seen c else c_cid_seen c in
-  let pend := c_retire c ++ retire in
+  let late := NCID_LATE_RETIRED && negb fresh && negb (existsb (Z.eqb seq) (c_cid_seen c)) in   (* below Retire Prior To, never seen: retired at once *)
+  let seen2 := if fresh || late then seq :: c_cid_seen c else c_cid_seen c in
+  let pend := c_retire c ++ retire ++ (if late then [seq] else []) in
   let consumed :=
     if change then match avail2 with a :: t => Some (a, t) | [] => None end
     else Some (c_cid_active c, avail2) in
   match consumed with
-  | None => (OExn, c)                       (* _peer_cid_available.pop(0) on an empty list: IndexError *)
+  | None => if NCID_EMPTY_CLOSES then (OErr E_PROTOCOL_VIOLATION ft, c)
+            else (OExn, c)                  (* _peer_cid_available.pop(0) on an empty list: IndexError *)
   | Some (active', avail3) =>
       if 1 + Zlen avail3 >? LOCAL_ACTIVE_CID_LIMIT then (OErr E_CONNECTION_ID_LIMIT_ERROR ft, c) else
       if Zlen pend >? Z.min (LOCAL_ACTIVE_CID_LIMIT * 4) MAX_PENDING_RETIRES then (OErr E_CONNECTION_ID_LIMIT_ERROR ft, c) else
@@ -282,7 +344,8 @@ Inductive op :=
 | CryptoFrame (off : Z) (data : list Z)
 | PathChallenge (d : Z)
 | LocalChallenge (d : Z)
-| NewConnectionId (seq rpt : Z).
+| NewConnectionId (seq rpt : Z)
+| PathPacket (addr : Z) (ds : list Z).
 
 Definition step (c : conn) (o : op) : outcome * conn :=
   match o with
@@ -297,6 +360,7 @@ Definition step (c : conn) (o : op) : outcome * conn :=
   | PathChallenge d => handle_path_challenge c d
   | LocalChallenge d => (OOk RNone, add_local_challenge c d)
   | NewConnectionId seq rpt => handle_new_cid c seq rpt
+  | PathPacket addr ds => handle_path_packet c addr ds
   end.
 
 Definition closes (o : outcome) : bool := match o with OErr _ _ | OExn => true | _ => false end.
@@ -316,7 +380,7 @@ Fixpoint run (c : conn) (ops : list op) : list outcome * conn :=
          4                       Write              5 which            LimitLost
          6 sid                   StreamLimitLost    7 off n b1..bn     CryptoFrame
          8 d                     PathChallenge      9 d                LocalChallenge
-         10 seq rpt              NewConnectionId
+         10 seq rpt              NewConnectionId    11 addr n d1..dn   PathPacket
    output = what is publicly observable:
          10 sid fin n b1..bn   StreamDataReceived event      11 sid   StreamReset event
          2 n (ft a b)*         frames written by a write pass (PATH_RESPONSE, RETIRE_CONNECTION_ID, MAX_* in wire order)
@@ -357,6 +421,7 @@ Definition parse_op (t : list Z) : option (op * list Z) :=
   | 8 :: d :: t => Some (PathChallenge d, t)
   | 9 :: d :: t => Some (LocalChallenge d, t)
   | 10 :: seq :: rpt :: t => Some (NewConnectionId seq rpt, t)
+  | 11 :: a :: t => let '(d, t) := tk_list t in Some (PathPacket a d, t)
   | _ => None
   end.
 
